@@ -493,7 +493,10 @@ func (s *Session) hostInfoFromMap(row map[string]interface{}, host *HostInfo) (*
 			if !ok {
 				return nil, fmt.Errorf(assertErrorMsg, "host_id")
 			}
-			host.hostId = hostId.String()
+			if hostId != (UUID{}) {
+				// a null host_id must stay empty so that isValidPeer rejects the row
+				host.hostId = hostId.String()
+			}
 		case "release_version":
 			version, ok := value.(string)
 			if !ok {
